@@ -226,7 +226,7 @@ class ConstEval:
           raise NotConst("ValueError")
         except Exception as ex:
           raise NotConst(str(ex))
-      if isinstance(e.func, ast.Attribute) and e.func.attr in ("join", "lower", "upper", "strip", "get", "split", "startswith", "endswith", "isdigit") and not e.keywords:
+      if isinstance(e.func, ast.Attribute) and e.func.attr in ("join", "lower", "upper", "strip", "rstrip", "lstrip", "get", "split", "startswith", "endswith", "isdigit", "replace", "zfill") and not e.keywords:
         try:
           recv = self._ev(m, e.func.value, cls, env)
           vals = [self._ev(m, a, cls, env) for a in args]
@@ -237,6 +237,8 @@ class ConstEval:
             return recv.join(vals[0])
           if e.func.attr in ("lower", "upper", "strip", "isdigit") and not vals:
             return getattr(recv, e.func.attr)()
+          if e.func.attr in ("strip", "rstrip", "lstrip", "replace", "zfill") and len(vals) <= 2 and all(isinstance(x, (str, int)) for x in vals):
+            return getattr(recv, e.func.attr)(*vals)
           if e.func.attr in ("split", "startswith", "endswith") and len(vals) <= 2 and all(isinstance(x, (str, int, tuple)) for x in vals):
             r_ = getattr(recv, e.func.attr)(*vals)
             return r_
